@@ -449,6 +449,9 @@ def e2e(chk, case, expect_ok, what):
     """`cond run --check //d:target`; returns the Result"""
     files = {DIR + "/COND": render(case), "other/COND": OTHER_COND}
     files.update(case.get("files", {}))
+    if case.get("cond_is_dir"):
+        files.pop(DIR + "/COND")
+        files[DIR + "/COND/placeholder"] = ""
     root = implrun.make_project(files)
     for rel, text in case.get("outside", {}).items():
         with open(os.path.join(os.path.dirname(root), rel), "w", encoding="utf-8") as f:
@@ -557,6 +560,36 @@ def python_error_cases():
     return out
 
 
+def cross_file_cases():
+    """defects that need two COND files in different directories, or a COND file that cannot even be read"""
+    out = []
+    dep = [T0, ("call", "run_command", {"name": "a", "run": "true", "deps": ["//zz:leaf"]})]
+    good = {DIR + "/common.cond": "REPS = 3\n"}
+    leaf = "include('common.cond')\nrun_command(name='leaf', run='true')\n"
+    # the same relative include string in two directories: each must be resolved and checked on its own
+    for tag, extra, ok in (
+        ("second-ok", {"zz/common.cond": "REPS = 4\n"}, True),
+        ("second-missing", {}, False),
+        ("second-raises", {"zz/common.cond": "raise ValueError('boom')\n"}, False),
+        ("second-defines-task", {"zz/common.cond": "run_command(name='inc', run='true')\n"}, False),
+        ("second-includes", {"zz/common.cond": "include('x.cond')\n", "zz/x.cond": "X = 1\n"}, False),
+    ):
+        out.append(({"stmts": dep, "target": "a", "tag": "include-two-dirs-" + tag, "prologue": "include('common.cond')\n",
+                     "files": dict(good, **dict({"zz/COND": leaf}, **extra))}, ok))
+    # and the symbols are the second file's own
+    out.append(({"stmts": dep, "target": "a", "tag": "include-two-dirs-own-symbols", "prologue": "include('common.cond')\n",
+                 "files": dict(good, **{"zz/COND": "include('common.cond')\nassert REPS == 4\nrun_command(name='leaf', run='true')\n", "zz/common.cond": "REPS = 4\n"})}, True))
+    # COND files that cannot be read as UTF-8 text / are not files
+    latin = "# caf\xe9\nrun_command(name='a', run='true')\n".encode("latin-1")
+    out.append(({"stmts": [T0], "target": "a", "tag": "cond-not-utf8", "prologue": "", "files": {DIR + "/COND": latin}, "must_name": "COND"}, False))
+    out.append(({"stmts": [T0], "target": "a", "tag": "cond-is-directory", "prologue": "", "cond_is_dir": True}, False))
+    out.append(({"stmts": dep, "target": "a", "tag": "dep-cond-not-utf8", "prologue": "", "files": {"zz/COND": "# caf\xe9\nrun_command(name='leaf', run='true')\n".encode("latin-1")}}, False))
+    out.append(({"stmts": dep, "target": "a", "tag": "dep-cond-is-directory", "prologue": "", "files": {"zz/COND/placeholder": ""}}, False))
+    out.append(({"stmts": [T0, ("call", "run_command", {"name": "a", "run": "true"})], "target": "a", "tag": "include-not-utf8", "prologue": "include('l.cond')\n",
+                 "files": {DIR + "/l.cond": "X = 'caf\xe9'\n".encode("latin-1")}}, False))
+    return out
+
+
 # ----------------------------------------------------------------------------- main
 def run(tier, seed, replay=None):
     chk = Check("C15", tier, seed)
@@ -630,7 +663,7 @@ def run(tier, seed, replay=None):
         r = e2e(chk, case, doc_wellformed_closure(case), "cond run --check")
         n_e2e += 1
         e2e_dist["exit-%s" % r.code] = e2e_dist.get("exit-%s" % r.code, 0) + 1
-    for case, ok in include_cases() + python_error_cases():
+    for case, ok in include_cases() + python_error_cases() + cross_file_cases():
         r = e2e(chk, case, ok, "include()" if case["tag"].startswith("include") else "Python error in a COND file")
         n_e2e += 1
         chk.count("e2e_kind", case["tag"])
